@@ -1,5 +1,7 @@
 import Dawgs.Model.C01
 import Dawgs.Model.C01S2
+import Dawgs.Model.C01Chain
+import Dawgs.Model.C01Count
 import Dawgs.Model.C03Bind
 import Dawgs.Model.SqlSchema
 /-
@@ -614,6 +616,181 @@ theorem tr_wellScoped2 (km : KindMap) (s : S2.Query) (flip : Bool) (st : Stmt) (
 
 end Hop
 
+-- ------------------------------------------------------------------ stage S2c: chains of two or three hops
+
+namespace ChainB
+open Dawgs.C01.S2 Dawgs.C01.Ch
+
+def cols5 : List Col := [⟨"e0", "edgecomposite"⟩, ⟨"e1", "edgecomposite"⟩, ⟨"n0", "nodecomposite"⟩, ⟨"n1", "nodecomposite"⟩, ⟨"n2", "nodecomposite"⟩]
+def cols7 : List Col := [⟨"e0", "edgecomposite"⟩, ⟨"e1", "edgecomposite"⟩, ⟨"e2", "edgecomposite"⟩, ⟨"n0", "nodecomposite"⟩, ⟨"n1", "nodecomposite"⟩,
+  ⟨"n2", "nodecomposite"⟩, ⟨"n3", "nodecomposite"⟩]
+def s0R : Rel := ⟨"s0", Hop.frameCols⟩
+def s1R : Rel := ⟨"s1", cols5⟩
+def s2R : Rel := ⟨"s2", cols7⟩
+
+theorem bFrame0 (km : KindMap) (ka kr kb : Option (List Nat)) (flip : Bool) : bQuery Γ0 ⟨[], []⟩ (Ch.frame0 ka kr kb flip) = some Hop.frameCols :=
+  Hop.bFrame2 km flip ka kr kb [] [] [] none none none rfl rfl rfl
+
+/-- frame s1 binds under the scope that knows s0 (the kind-id lists are literals: their content is never inspected) -/
+theorem bStep1 (kr kn : Option (List Nat)) : bQuery Γ0 ⟨[s0R], []⟩ (Ch.stepFrame 1 kr kn) = some cols5 := by
+  cases kr <;> cases kn <;> rfl
+
+theorem bStep2 (kr kn : Option (List Nat)) : bQuery Γ0 ⟨[s1R, s0R], []⟩ (Ch.stepFrame 2 kr kn) = some cols7 := by
+  cases kr <;> cases kn <;> rfl
+
+def refOK (k : Nat) : Ch.Ref → Bool
+  | .node i => decide (i < k + 1)
+  | .rel i => decide (i < k)
+
+theorem bItem_s1 (q : Ch.Query) (it : Ch.Item) (hv : refOK 2 it.ref = true) : ∃ ty, bExpr Γ0 ⟨[s1R, s0R], [[s1R]]⟩ (it.tr q "s1") = some ty := by
+  cases it with
+  | ent x al =>
+    cases x with
+    | node i => rcases i with _ | _ | _ | i <;> first | exact ⟨_, rfl⟩ | (simp [refOK, Ch.Item.ref] at hv; omega)
+    | rel i => rcases i with _ | _ | i <;> first | exact ⟨_, rfl⟩ | (simp [refOK, Ch.Item.ref] at hv; omega)
+  | idOf x al =>
+    cases x with
+    | node i => rcases i with _ | _ | _ | i <;> cases al <;> first | exact ⟨_, rfl⟩ | (simp [refOK, Ch.Item.ref] at hv; omega)
+    | rel i => rcases i with _ | _ | i <;> cases al <;> first | exact ⟨_, rfl⟩ | (simp [refOK, Ch.Item.ref] at hv; omega)
+  | prop x k al =>
+    cases x with
+    | node i => rcases i with _ | _ | _ | i <;> cases al <;> first | exact ⟨_, rfl⟩ | (simp [refOK, Ch.Item.ref] at hv; omega)
+    | rel i => rcases i with _ | _ | i <;> cases al <;> first | exact ⟨_, rfl⟩ | (simp [refOK, Ch.Item.ref] at hv; omega)
+
+theorem bItem_s2 (q : Ch.Query) (it : Ch.Item) (hv : refOK 3 it.ref = true) : ∃ ty, bExpr Γ0 ⟨[s2R, s1R, s0R], [[s2R]]⟩ (it.tr q "s2") = some ty := by
+  cases it with
+  | ent x al =>
+    cases x with
+    | node i => rcases i with _ | _ | _ | _ | i <;> first | exact ⟨_, rfl⟩ | (simp [refOK, Ch.Item.ref] at hv; omega)
+    | rel i => rcases i with _ | _ | _ | i <;> first | exact ⟨_, rfl⟩ | (simp [refOK, Ch.Item.ref] at hv; omega)
+  | idOf x al =>
+    cases x with
+    | node i => rcases i with _ | _ | _ | _ | i <;> cases al <;> first | exact ⟨_, rfl⟩ | (simp [refOK, Ch.Item.ref] at hv; omega)
+    | rel i => rcases i with _ | _ | _ | i <;> cases al <;> first | exact ⟨_, rfl⟩ | (simp [refOK, Ch.Item.ref] at hv; omega)
+  | prop x k al =>
+    cases x with
+    | node i => rcases i with _ | _ | _ | _ | i <;> cases al <;> first | exact ⟨_, rfl⟩ | (simp [refOK, Ch.Item.ref] at hv; omega)
+    | rel i => rcases i with _ | _ | _ | i <;> cases al <;> first | exact ⟨_, rfl⟩ | (simp [refOK, Ch.Item.ref] at hv; omega)
+
+theorem itemCh_not_wildcard (q : Ch.Query) (s : String) (it : Ch.Item) : it.tr q s ≠ .wildcard := by
+  cases it with
+  | ent x al => intro hh; cases hh
+  | idOf x al => cases al <;> (intro hh; cases hh)
+  | prop x k al => cases al <;> (intro hh; cases hh)
+
+theorem bProjCh (q : Ch.Query) (s : String) (sc : Scope) (lvl : List Rel) (hb : ∀ it ∈ q.items, ∃ ty, bExpr Γ0 sc (it.tr q s) = some ty) :
+    ∀ (items : List Ch.Item), (∀ it ∈ items, it ∈ q.items) → ∃ cols, bProj Γ0 sc lvl (items.map (Ch.Item.tr q s)) = some cols
+  | [], _ => ⟨[], by rw [List.map_nil, bProj]⟩
+  | it :: items, h => by
+    obtain ⟨ty, hty⟩ := hb it (h it (List.mem_cons_self ..))
+    obtain ⟨cols, hcols⟩ := bProjCh q s sc lvl hb items (fun i hi => h i (List.mem_cons_of_mem _ hi))
+    refine ⟨⟨figureName (it.tr q s), ty⟩ :: cols, ?_⟩
+    rw [List.map_cons, bProj]
+    · simp only [hty, hcols, Option.bind_eq_bind, Option.bind_some, Option.pure_def]
+    · intro hh; exact itemCh_not_wildcard q s it hh
+
+theorem refs_ok (q : Ch.Query) (x : Ch.Ref) (h : q.refs.contains x = true) : refOK q.hops.length x = true := by
+  unfold Ch.Query.refs at h
+  simp only [List.contains_eq_mem, List.mem_append, List.mem_map, List.mem_range, decide_eq_true_eq] at h
+  cases x with
+  | node i =>
+    rcases h with ⟨j, hj, hh⟩ | ⟨j, _, hh⟩
+    · cases hh; simp [refOK, hj]
+    · cases hh
+  | rel i =>
+    rcases h with ⟨j, _, hh⟩ | ⟨j, hj, hh⟩
+    · cases hh
+    · cases hh; simp [refOK, hj]
+
+/-- THE FRAGMENT THEOREM, stage S2c: every chain statement passes the verified binder under the schema catalogue with no parameters -/
+theorem tr_wellScopedCh (km : KindMap) (q : Ch.Query) (flip : Bool) (st : Stmt) (h : q.trWith km flip = some st) : wellScoped Γ0 st = true := by
+  unfold Ch.Query.trWith at h
+  cases hwf : q.wf with
+  | false => simp [hwf] at h
+  | true =>
+  simp only [hwf, Bool.not_true, Bool.false_eq_true, if_false] at h
+  have hwf' := hwf
+  unfold Ch.Query.wf at hwf'
+  simp only [Bool.and_eq_true, decide_eq_true_eq, List.all_eq_true, Bool.or_eq_true, beq_iff_eq] at hwf'
+  obtain ⟨⟨⟨hlen, _⟩, hitems⟩, _⟩ := hwf'
+  cases hh : q.hops with
+  | nil => rw [hh] at hlen; simp at hlen
+  | cons h0 hs =>
+  rw [hh] at h hlen
+  simp only at h
+  cases hka : kindIds? km q.akinds with
+  | none => simp [hka, bind, Option.bind] at h
+  | some ka =>
+  cases hk0 : Ch.hopKinds km h0 with
+  | none => simp [hka, hk0, bind, Option.bind] at h
+  | some k0 =>
+  obtain ⟨kr, kb⟩ := k0
+  cases hs with
+  | nil => simp at hlen
+  | cons h1 hs' =>
+  cases hk1 : Ch.hopKinds km h1 with
+  | none => simp [hka, hk0, hk1, Ch.stepCtes, bind, Option.bind] at h
+  | some k1 =>
+  obtain ⟨kr1, kn1⟩ := k1
+  have hf0 := bFrame0 km ka kr kb flip
+  have hf1 := bStep1 kr1 kn1
+  cases hs' with
+  | nil =>
+    simp [hka, hk0, hk1, Ch.stepCtes, bind, Option.bind, Ch.sN] at h
+    subst h
+    have hb : ∀ it ∈ q.items, ∃ ty, bExpr Γ0 ⟨[s1R, s0R], [[s1R]]⟩ (it.tr q "s1") = some ty := fun it hit =>
+      bItem_s1 q it (by have := refs_ok q it.ref (by simpa using hitems it hit); rw [hh] at this; exact this)
+    obtain ⟨cols, hcols⟩ := bProjCh q "s1" ⟨[s1R, s0R], [[s1R]]⟩ [s1R] hb q.items (fun _ hi => hi)
+    have hFrom : bFromClauses Γ0 ⟨[s1R, s0R], []⟩ [] [.mk (.table ["s1"] none) []] = some [s1R] := by decide +kernel
+    unfold wellScoped
+    rw [bStmt, bQuery, bCtes]
+    case x_2 => intro _ _ _ _ _ _ _ _ hh; cases hh
+    simp only [Scope.empty, Scope.withCtes, hf0, Option.bind_eq_bind, Option.bind_some, bShape, List.contains_nil, Bool.false_eq_true, if_false]
+    rw [bCtes]
+    case x_2 => intro _ _ _ _ _ _ _ _ hh; cases hh
+    have hs0 : (⟨"s0", Hop.frameCols⟩ : Rel) = s0R := rfl
+    simp only [hs0, Scope.withCtes, hf1, Option.bind_eq_bind, Option.bind_some, bShape, List.contains_cons, List.contains_nil,
+      Bool.or_false, show ("s1" == "s0") = false from by decide, Bool.false_eq_true, if_false, bCtes]
+    rw [bSetExpr]
+    have hs1 : (⟨"s1", cols5⟩ : Rel) = s1R := rfl
+    simp only [hs1, hFrom, Scope.push, Option.bind_eq_bind, Option.bind_some, bOpt, hcols, bGroupBy, Option.pure_def, bOrderBy,
+      Option.isSome_some]
+  | cons h2 hs'' =>
+    cases hs'' with
+    | cons h3 _ => simp at hlen
+    | nil =>
+    cases hk2 : Ch.hopKinds km h2 with
+    | none => simp [hka, hk0, hk1, hk2, Ch.stepCtes, bind, Option.bind] at h
+    | some k2 =>
+    obtain ⟨kr2, kn2⟩ := k2
+    have hf2 := bStep2 kr2 kn2
+    simp [hka, hk0, hk1, hk2, Ch.stepCtes, bind, Option.bind, Ch.sN] at h
+    subst h
+    have hb : ∀ it ∈ q.items, ∃ ty, bExpr Γ0 ⟨[s2R, s1R, s0R], [[s2R]]⟩ (it.tr q "s2") = some ty := fun it hit =>
+      bItem_s2 q it (by have := refs_ok q it.ref (by simpa using hitems it hit); rw [hh] at this; exact this)
+    obtain ⟨cols, hcols⟩ := bProjCh q "s2" ⟨[s2R, s1R, s0R], [[s2R]]⟩ [s2R] hb q.items (fun _ hi => hi)
+    have hFrom : bFromClauses Γ0 ⟨[s2R, s1R, s0R], []⟩ [] [.mk (.table ["s2"] none) []] = some [s2R] := by decide +kernel
+    unfold wellScoped
+    rw [bStmt, bQuery, bCtes]
+    case x_2 => intro _ _ _ _ _ _ _ _ hh; cases hh
+    simp only [Scope.empty, Scope.withCtes, hf0, Option.bind_eq_bind, Option.bind_some, bShape, List.contains_nil, Bool.false_eq_true, if_false]
+    rw [bCtes]
+    case x_2 => intro _ _ _ _ _ _ _ _ hh; cases hh
+    have hs0 : (⟨"s0", Hop.frameCols⟩ : Rel) = s0R := rfl
+    simp only [hs0, Scope.withCtes, hf1, Option.bind_eq_bind, Option.bind_some, bShape, List.contains_cons, List.contains_nil,
+      Bool.or_false, show ("s1" == "s0") = false from by decide, Bool.false_eq_true, if_false]
+    rw [bCtes]
+    case x_2 => intro _ _ _ _ _ _ _ _ hh; cases hh
+    have hs1 : (⟨"s1", cols5⟩ : Rel) = s1R := rfl
+    simp only [hs1, Scope.withCtes, hf2, Option.bind_eq_bind, Option.bind_some, bShape, List.contains_cons, List.contains_nil,
+      Bool.or_false, show ("s2" == "s1") = false from by decide, show ("s2" == "s0") = false from by decide, Bool.false_eq_true, if_false, bCtes]
+    rw [bSetExpr]
+    have hs2 : (⟨"s2", cols7⟩ : Rel) = s2R := rfl
+    simp only [hs2, hFrom, Scope.push, Option.bind_eq_bind, Option.bind_some, bOpt, hcols, bGroupBy, Option.pure_def, bOrderBy,
+      Option.isSome_some]
+
+end ChainB
+
 /-- both proved stages, every join-order choice: every statement of `tr2F` is closed and carries no parameters -/
 theorem tr2_wellScoped (flipOf : C01.S2.Query → Bool) (km : KindMap) (q : Cy.Query) (st : Stmt) (ps : List (String × Val))
     (h : C01.tr2F flipOf km q = some (st, ps)) : wellScoped Γ0 st = true ∧ ps = [] := by
@@ -640,5 +817,105 @@ theorem tr2_wellScoped (flipOf : C01.S2.Query → Bool) (km : KindMap) (q : Cy.Q
       obtain ⟨st', hst, heq⟩ := h
       cases heq
       exact ⟨Hop.tr_wellScoped2 km s _ _ hst, rfl⟩
+
+-- ------------------------------------------------------------------ stage S1c: count over one node pattern
+
+namespace CountB
+open Dawgs.C01.S1c
+
+theorem bCountItem (sc : Scope) (lvl : List Rel) (al : Option String) (arg : Expr) (ty : String)
+    (h : bExpr Γ0 sc (.call "count" [arg] false false "int8") = some ty) : ∃ cols, bProj Γ0 sc lvl [countItem al arg] = some cols := by
+  cases al with
+  | none =>
+    refine ⟨[⟨figureName (countItem none arg), ty⟩], ?_⟩
+    simp only [countItem]
+    rw [bProj]
+    · simp only [h, bProj, Option.bind_eq_bind, Option.bind_some, Option.pure_def]
+    · intro hh; cases hh
+  | some a =>
+    refine ⟨[⟨figureName (countItem (some a) arg), ty⟩], ?_⟩
+    simp only [countItem]
+    rw [bProj]
+    · rw [bExpr]
+      simp only [h, bProj, Option.bind_eq_bind, Option.bind_some, Option.pure_def]
+    · intro hh; cases hh
+
+theorem bProjFast (al : Option String) : ∃ cols, bProj Γ0 scN [nodeRel] [countItem al .wildcard] = some cols :=
+  bCountItem scN [nodeRel] al .wildcard "int8" (by decide +kernel)
+
+theorem bProjFrame (al : Option String) : ∃ cols, bProj Γ0 scO [s0Rel] [countItem al (.compound ["s0", "n0"])] = some cols :=
+  bCountItem scO [s0Rel] al (.compound ["s0", "n0"]) "int8" (by decide +kernel)
+
+/-- THE FRAGMENT THEOREM, stage S1c: both count statements pass the verified binder under the schema catalogue with no parameters -/
+theorem tr_wellScopedCount (km : KindMap) (q : S1c.Query) (fast : Bool) (st : Stmt) (h : q.trWith km fast = some st) : wellScoped Γ0 st = true := by
+  unfold S1c.Query.trWith at h
+  obtain ⟨w, hwo, hst⟩ := Option.map_eq_some_iff.mp h
+  obtain ⟨ty, hw⟩ := bWhere km q.s1 w hwo
+  cases hf : (fast && q.fastOK) with
+  | true =>
+    rw [hf] at hst
+    simp only [if_true] at hst
+    subst hst
+    obtain ⟨cols, hcols⟩ := bProjFast q.alias
+    have hw' : bOpt Γ0 ⟨[], [[nodeRel]]⟩ w = some ty := hw
+    have hcols' : bProj Γ0 ⟨[], [[nodeRel]]⟩ [nodeRel] [countItem q.alias .wildcard] = some cols := hcols
+    unfold wellScoped S1c.fastStmt Sql.Query.simple
+    rw [bStmt, bQuery, bCtes]
+    simp only [Scope.empty, Scope.withCtes, Option.bind_eq_bind, Option.bind_some]
+    rw [bSetExpr]
+    simp only [hFrom, Scope.push, Option.bind_eq_bind, Option.bind_some, hw', hcols', bGroupBy, bOpt, bOrderBy, Option.pure_def, Option.isSome_some]
+  | false =>
+    rw [hf] at hst
+    simp only [Bool.false_eq_true, if_false] at hst
+    subst hst
+    obtain ⟨cols, hcols⟩ := bProjFrame q.alias
+    have hcols' : bProj Γ0 ⟨[s0Rel], [[s0Rel]]⟩ [s0Rel] [countItem q.alias (.compound ["s0", "n0"])] = some cols := hcols
+    have hfr := bFrame w ty hw
+    unfold frameSel at hfr
+    unfold wellScoped S1c.frameStmt
+    rw [bStmt, bQuery, bCtes]
+    case x_2 => intro _ _ _ _ _ _ _ _ hh; cases hh
+    simp only [Scope.empty, Scope.withCtes, hfr, Option.bind_eq_bind, Option.bind_some, bShape, List.contains_nil, Bool.false_eq_true,
+      if_false, bCtes]
+    rw [bSetExpr]
+    have hs0 : (⟨"s0", [⟨"n0", "nodecomposite"⟩]⟩ : Rel) = s0Rel := rfl
+    simp only [hs0, hFromO, Scope.push, Option.bind_eq_bind, Option.bind_some, bOpt, hcols', bGroupBy, Option.pure_def, bOrderBy,
+      Option.isSome_some]
+
+end CountB
+
+/-- all three proved stages -/
+theorem tr3_wellScoped (flipOf : C01.S2.Query → Bool) (flipCh : C01.Ch.Query → Bool) (km : KindMap) (q : Cy.Query) (st : Stmt)
+    (ps : List (String × Val)) (h : C01.tr3F flipOf flipCh km q = some (st, ps)) : wellScoped Γ0 st = true ∧ ps = [] := by
+  unfold C01.tr3F at h
+  cases h1 : C01.tr2F flipOf km q with
+  | some r => rw [h1] at h; cases h; exact tr2_wellScoped flipOf km q st ps h1
+  | none =>
+    rw [h1] at h
+    cases ho : C01.ofCyChain q with
+    | none => rw [ho] at h; cases h
+    | some s =>
+      rw [ho] at h
+      simp only [Option.map_eq_some_iff] at h
+      obtain ⟨st', hst, heq⟩ := h
+      cases heq
+      exact ⟨ChainB.tr_wellScopedCh km s _ _ hst, rfl⟩
+
+/-- all four proved stages -/
+theorem tr4_wellScoped (flipOf : C01.S2.Query → Bool) (flipCh : C01.Ch.Query → Bool) (fast : Bool) (km : KindMap) (q : Cy.Query) (st : Stmt)
+    (ps : List (String × Val)) (h : C01.tr4F flipOf flipCh fast km q = some (st, ps)) : wellScoped Γ0 st = true ∧ ps = [] := by
+  unfold C01.tr4F at h
+  cases h1 : C01.tr3F flipOf flipCh km q with
+  | some r => rw [h1] at h; cases h; exact tr3_wellScoped flipOf flipCh km q st ps h1
+  | none =>
+    rw [h1] at h
+    cases ho : C01.ofCyCount1 q with
+    | none => rw [ho] at h; cases h
+    | some s =>
+      rw [ho] at h
+      simp only [Option.map_eq_some_iff] at h
+      obtain ⟨st', hst, heq⟩ := h
+      cases heq
+      exact ⟨CountB.tr_wellScopedCount km s _ _ hst, rfl⟩
 
 end Dawgs.C03.Frag
